@@ -333,6 +333,8 @@ pub enum Cont {
 pub enum Form {
     Known,
     WriterUnknown,
+    /// serialize_iterator over an iterator whose size hint is bounded but inexact: (lo, Some(hi)) with lo <= n <= hi, lo < hi
+    WriterBoundedHint,
     RefUnknown,
 }
 
@@ -377,7 +379,7 @@ const ARR: [usize; 4] = [0, 1, 2, 3];
 pub fn cont_case_strategy() -> BoxedStrategy<ContCase> {
     let cfg = ValCfg { max_len: 10, long: false, ..ValCfg::default() };
     // (1) sequences / sets over a key-capable element type
-    let seqs = (key_ty(1), prop::sample::select(vec![Cont::Vec, Cont::Slice, Cont::Array, Cont::LinkedList, Cont::HashSet, Cont::BTreeSet, Cont::RcSlice]), prop::sample::select(vec![Cont::Vec, Cont::Array, Cont::LinkedList, Cont::HashSet, Cont::BTreeSet]), prop::sample::select(vec![Form::Known, Form::Known, Form::WriterUnknown, Form::RefUnknown]))
+    let seqs = (key_ty(1), prop::sample::select(vec![Cont::Vec, Cont::Slice, Cont::Array, Cont::LinkedList, Cont::HashSet, Cont::BTreeSet, Cont::RcSlice]), prop::sample::select(vec![Cont::Vec, Cont::Array, Cont::LinkedList, Cont::HashSet, Cont::BTreeSet]), prop::sample::select(vec![Form::Known, Form::Known, Form::WriterUnknown, Form::WriterBoundedHint, Form::RefUnknown]))
         .prop_filter_map("u8 elements use the byte-array form", |(e, s, d, f)| if e == Ty::U8 { None } else { Some((e, s, d, f)) })
         .prop_flat_map(move |(e, s, d, f)| {
             let n_fixed = s == Cont::Array || d == Cont::Array;
@@ -391,7 +393,7 @@ pub fn cont_case_strategy() -> BoxedStrategy<ContCase> {
         })
         .prop_map(|(elem, xs, src, dst, form)| ContCase { elem, elem2: None, xs, src, dst, form });
     // (2) sequences over any element type (ordered containers only)
-    let anyseq = (any_ty(1), prop::sample::select(vec![Cont::Vec, Cont::Slice, Cont::LinkedList, Cont::RcSlice]), prop::sample::select(vec![Cont::Vec, Cont::LinkedList]), prop::sample::select(vec![Form::Known, Form::WriterUnknown, Form::RefUnknown]))
+    let anyseq = (any_ty(1), prop::sample::select(vec![Cont::Vec, Cont::Slice, Cont::LinkedList, Cont::RcSlice]), prop::sample::select(vec![Cont::Vec, Cont::LinkedList]), prop::sample::select(vec![Form::Known, Form::WriterUnknown, Form::WriterBoundedHint, Form::RefUnknown]))
         .prop_filter_map("u8 elements use the byte-array form", |(e, s, d, f)| if e == Ty::U8 { None } else { Some((e, s, d, f)) })
         .prop_flat_map(move |(e, s, d, f)| {
             let xs = val_strategy(&Ty::Vec(Arc::new(e.clone())), cfg);
@@ -469,6 +471,23 @@ pub fn check_c12(c: &ContCase, acc: &mut Acc, record: bool) -> Verdict {
                 Err(e) => return Verdict::Fail(format!("serialize_iterator failed: {e:?}")),
             }
         }
+        Form::WriterBoundedHint => {
+            let elem_ty = match &c.elem2 {
+                Some(v) => Ty::Tuple(vec![c.elem.clone(), v.clone()]),
+                None => c.elem.clone(),
+            };
+            let list = match &c.xs {
+                Val::Seq(x) => x.clone(),
+                _ => return Verdict::Skip,
+            };
+            // what a `.filter(..)` adaptor reports: lower bound 0 (or something below n), upper bound above n
+            let n = list.len();
+            let (lo, hi) = if n % 2 == 0 { (0, n + 1 + n % 3) } else { (n - 1, n + 2) };
+            match vcat::encode_iter_hint(&elem_ty, &list, lo, Some(hi)) {
+                Ok(b) => (c.xs.clone(), b),
+                Err(e) => return Verdict::Fail(format!("serialize_iterator failed: {e:?}")),
+            }
+        }
         Form::RefUnknown => {
             // the reference encoder's unknown-length rendering of the list (root node only)
             let list_ty = match &c.elem2 {
@@ -528,7 +547,7 @@ pub fn run_c12(cx: &Cx) -> PropResult {
     PropResult::new(
         acc,
         "exploration",
-        "cases = (element type E, element list xs with likely duplicates, source container S, target container D, size form): S in {Vec, &[E], [E;N], LinkedList, HashSet, BTreeSet, Rc<[E]>}, D in {Vec, [E;N], LinkedList, HashSet, BTreeSet}; lists of pairs <-> HashMap / BTreeMap / Vec<(K,V)>; byte containers Vec<u8>, &[u8], [u8;N], Bytes, Rc<[u8]> among themselves; forms: the writer's known-length form, the writer's unknown-length form (serialize_iterator over an iterator with an inexact size hint) and the reference encoder's unknown-length form. Oracle: D decoded from S's bytes equals the elements as S wrote them (sequence equality for ordered targets, set/map equality with last-key-wins otherwise). Non-trivial = S != D or an unknown-length form, with a non-empty list.",
+        "cases = (element type E, element list xs with likely duplicates, source container S, target container D, size form): S in {Vec, &[E], [E;N], LinkedList, HashSet, BTreeSet, Rc<[E]>}, D in {Vec, [E;N], LinkedList, HashSet, BTreeSet}; lists of pairs <-> HashMap / BTreeMap / Vec<(K,V)>; byte containers Vec<u8>, &[u8], [u8;N], Bytes, Rc<[u8]> among themselves; forms: the writer's known-length form, the writer's unknown-length form (serialize_iterator over an iterator with an inexact size hint: unbounded (0, None) and bounded (lo, Some(hi)) with lo <= n <= hi as a filter adaptor reports) and the reference encoder's unknown-length form. Oracle: D decoded from S's bytes equals the elements as S wrote them (sequence equality for ordered targets, set/map equality with last-key-wins otherwise). Non-trivial = S != D or an unknown-length form, with a non-empty list.",
     )
 }
 
